@@ -403,6 +403,12 @@ def _zero_init_in_same_block(txt, call_pos, sym, macro):
     raw = re.search(rf"\b(realtype|double)\s+{sym}\[{macro}\]\s*=\s*\{{\s*0\.0\s*\}}\s*;", block_prefix)
     if raw is None:
         return False, f"no zero-initialised declaration of {sym} in the block that calls the rate evaluation"
+    # automatic storage: the initialiser must run at every entry of the block (a static / thread_local / extern array keeps the
+    # coefficients of an earlier call for reactions whose window guard is false now)
+    stmt_start = max(block_prefix.rfind(";", 0, raw.start()), block_prefix.rfind("{", 0, raw.start()), block_prefix.rfind("}", 0, raw.start())) + 1
+    quals = block_prefix[stmt_start:raw.start()]
+    if re.search(r"\b(static|thread_local|extern|__shared__|__device__|__constant__)\b", quals):
+        return False, f"declaration of {sym} has storage class `{quals.strip()}`: it is not re-initialised at every call"
     # the declaration must not be inside a nested block of this block
     before = block_prefix[:raw.start()]
     if before.count("{") - before.count("}") != sum(1 for _ in re.finditer(r"=\s*\{", before)) - sum(1 for _ in re.finditer(r"\{\s*0\.0\s*\}", before)) + 0 and \
